@@ -105,6 +105,10 @@ type Case struct {
 	// multi-stream histories: the streams created, in order, on ONE factory and the order of their calls
 	History []Case `json:"history,omitempty"`
 	Order   []int  `json:"call_order,omitempty"`
+	// afterabort family (round7.go): History[0] ends abnormally as described here, then History[1] runs
+	Abort *abortParams `json:"abort,omitempty"`
+	// largemsg family (round7.go): a symptom counts only if the same stream with a 300-byte message does not show it
+	LargeMsg bool `json:"large_message_family,omitempty"`
 }
 
 type config struct {
@@ -1506,6 +1510,10 @@ func main() {
 		wireShardMain(spec, tier == "thorough")
 		return
 	}
+	if spec := os.Getenv("C11_R7_SHARD"); spec != "" {
+		abortShardMain(spec, tier == "thorough")
+		return
+	}
 	if os.Getenv("C11_BENCH") != "" {
 		bench(maxEx)
 		return
@@ -1516,6 +1524,9 @@ func main() {
 	}
 	rep := lib.NewReport("C11", "model_checking")
 	cfgs := configs(maxMsgs, tier != "thorough")
+	if onlyRound7 {
+		cfgs = nil
+	}
 	// dispatch the most expensive configurations first (load balance); results are order independent
 	order := make([]int, len(cfgs))
 	costs := make([]int64, len(cfgs))
@@ -1572,6 +1583,9 @@ func main() {
 	// multi-stream histories on one factory
 	alpha := historyAlphabet(tier == "thorough")
 	tasks := histTasks(len(alpha))
+	if onlyRound7 {
+		tasks = nil
+	}
 	lib.Parallel(len(tasks), func(k int) {
 		if atomic.LoadInt32(&timedOut) != 0 || time.Now().After(deadline) {
 			atomic.StoreInt32(&timedOut, 1)
@@ -1622,7 +1636,7 @@ func main() {
 	rep.Coverage["streams_with_le3_cuts_over_boundary_positions"] = boundedStreams
 	rep.Coverage["exhaustive"] = rep.Incomplete == ""
 	rep.Coverage["rule"] = "cases = every (message sequence, per-message compressed flag, grpc-encoding, END_STREAM placement, direction, content-type, cut set) " +
-		"plus every multi-stream history (ordered pair of stream types on one factory x every interleaving of their calls; ordered triples one after the other), every duplex pair x interleaving, every emptyframes/enchdr case and every wire case (a real proxy session); " +
+		"plus every multi-stream history (ordered pair of stream types on one factory x every interleaving of their calls; ordered triples one after the other), every duplex pair x interleaving, every emptyframes/enchdr case, every wire case (a real proxy session), every afterabort history (a gRPC stream ended abnormally after p bytes, then a well-formed stream) and every largemsg case; " +
 		"states = distinct stream configurations executed, transitions = Header/Data calls made on the real adapter; a case is non-trivial when the stream is gRPC, " +
 		"has at least one message and at least one DATA frame boundary falls strictly inside a message frame (inside its 5-byte prefix or inside its payload), i.e. reassembly across frames is required"
 	rep.Coverage["bounds"] = fmt.Sprintf("message sequences of length 0..%d over sizes %v x compressed flag per message; encodings %v; END_STREAM on %v (zero-message streams: %v); both directions; content-type application/grpc and application/json (sequences of <=1 message also application/grpc+proto, a gRPC content-type, and application/grpc-web, not one); "+
@@ -1638,6 +1652,8 @@ func main() {
 		"multi-stream histories are executed by one goroutine (calls of different streams interleaved, never concurrent); data races between streams are not in scope here",
 		"wire family: real h2.Config.Proxy sessions over net.Pipe (client side) and TLS on 127.0.0.1 (server side) with raw x/net framers as endpoints; senders keep every DATA frame <= 16384 bytes and honour the windows the proxy grants; completion is detected by observing END_STREAM at the destination and a sentinel stream sent behind the traffic, a 20 s deadline only bounds the wait for a delivery that never happens; receiver windows smaller than a frame and receiver-side SETTINGS changes mid-stream belong to C09 and are not enumerated",
 		"a gRPC stream announcing a grpc-encoding outside the statement's four is judged for panics only (the adapter rejects the header block, which ends the connection); recorded in coverage as enchdr_*",
+		"afterabort histories run one after the other on one goroutine of a worker process with GOMAXPROCS=1 and the automatic collector off, two explicit collections before each history (this empties every sync.Pool): state the code keeps between streams is handed on deterministically within a history and never between histories; concurrent streams sharing such state are not enumerated; the interrupted stream itself is judged only for panics, RSTStream errors and for showing the processor a prefix of the source messages",
+		"largemsg: message bodies are compressible (a 16 MiB message is a few hundred KB on the wire when compressed); sizes are decompressed sizes; a symptom is attributed to the family only if the same configuration with a 300-byte message does not show it",
 		"DATA frames larger than the default max frame size are fed to the processor when a cut set leaves them whole (the Processor API does not bound them)",
 	}
 	rep.Finish()
@@ -1663,6 +1679,18 @@ func replay(path string, maxEx int) {
 	var syms []symptom
 	if rp.First.Replay.Wire != nil {
 		syms, err = evalWireCase(rp.First.Replay)
+		if err != nil {
+			fmt.Println(err)
+			os.Exit(2)
+		}
+	} else if rp.First.Replay.Abort != nil {
+		syms, err = evalAbortCase(rp.First.Replay)
+		if err != nil {
+			fmt.Println(err)
+			os.Exit(2)
+		}
+	} else if rp.First.Replay.LargeMsg {
+		syms, err = evalLargeCase(rp.First.Replay)
 		if err != nil {
 			fmt.Println(err)
 			os.Exit(2)
